@@ -23,7 +23,11 @@
 
 def to_pascal_case(name: str) -> str:
     """Convert snake case to pascal case."""
-    return "".join([n.capitalize() for n in name.split("_")])
+    pascal = "".join([n.capitalize() for n in name.split("_")])
+    # `_1` or `_` would lose everything that makes them an identifier
+    if not pascal or pascal[0].isdigit():
+        pascal = "_" + pascal
+    return pascal
 
 
 def to_snake_case(name: str) -> str:
